@@ -197,7 +197,8 @@ def judge(out, case, it, oc, exc, ctx):
 class C14(Check):
     pid = 'C14'
     level = 'exploration'
-    rule = ('1-3 concurrent tickers (interval/delay) with period from {0, 1/4, .., 3} (also negative), 1-8 body '
+    rule = ('[also: ticker objects created first and iterated later; an until() left by IntervalExceeded followed by another ticker] '
+            '1-3 concurrent tickers (interval/delay) with period from {0, 1/4, .., 3} (also negative), 1-8 body '
             'durations each <, == or > the period (also no-suspension bodies), start times incl. negative and '
             'fractional, optionally inside until(time+d) and followed by a second ticker, next to a bounded spinner; '
             '10% arbitrary float periods (IntervalExceeded-iff clause only). non-trivial = period 0, or a body equal '
